@@ -32,6 +32,7 @@ def main(replay=None):
     quick = ck.tier != "thorough"
     pf = PROPFILE if os.path.exists(os.path.join(core.COQ, PROPFILE)) else None
     bdir, hb = ck.prepare(pf, "h_c02.cpp")
+    hc.clean_axiom_accounting(ck)
     if hb is None: return ck.finish()
     stats = {}
     if replay:
@@ -75,6 +76,7 @@ def main(replay=None):
     kd2, kb2 = hc.run_kernel_metamorphic(ck, hb, 2000 if quick else 20000, tr_pow2, "rescaled by a power of two (exact)", rel=0.0)
     topo = {}
     for r in recs: topo[r["topology"]] = topo.get(r["topology"], 0) + 1
+    topo["pairs_with_an_inward_wound_mesh_(orientation_repair)"] = sum(1 for r in recs if r.get("flipped"))
     nontriv = sum(1 for r in recs if not r["singular"] and r["levels"])
     nk = sum(kd1.values()) + sum(kd2.values())
     ck.cov.update(evaluations=len(recs) + nk, distinct_nontrivial=nontriv + nk,
